@@ -1,4 +1,5 @@
 import RzilVerif.Model.Compile
+import RzilVerif.Model.LoopTy
 /-
   Layer A with the hybrid machinery (`resolve_hybrid`, `chk_hybrid_dep`, `hybrid_effect_dict`):
   postfix increment/decrement on locals, calls of registered sub-routines, statement-expressions.
@@ -266,6 +267,15 @@ def compileArgsH (env : CEnv) (st : HSt) : List CExpr → List CT → Except Str
       .ok (ca.il :: rest, st)
 end
 
+/-- The init effect `v = 0` of a `for` loop whose counter has type `lvt` (`loopVarTy`): the undeclared special
+    identifiers (ut32) keep the shape tied to the code; a declared counter gets what the ordinary assignment
+    `v = 0` to that typed local gives (`SETL(v, SN(32, 0))` for `int`, a `CAST` of it otherwise). -/
+def forInitH (env : CEnv) (v : String) (lvt : CT) : Except String ILEffect :=
+  if lvt == utT then .ok (.setl v (.cast 32 .bfalse (.const true 32 0)))
+  else do
+    let (eff, _) ← compileAssign env (.var v lvt) "=" { il := numberIL ⟨true, 32, 1⟩ 0, ty := ⟨true, 32, 1⟩, kind := .lit 0 }
+    .ok eff
+
 def assignSrcH (env : CEnv) (lhs : CExpr) (op : String) (ce : CE) : Except String (ILEffect × CE) :=
   compileAssign env lhs op ce
 
@@ -315,17 +325,20 @@ def compileStmtH (env : CEnv) (st : HSt) : CStmt → Except String (Option ILEff
           let (eff, st) := chk st (.branch (condIL env.cfg cc) thenSeq elseSeq) []
           .ok (some eff, [], st)
   | .for_ v cond step body => do
-      let (init, st) := chk st (.setl v (.cast 32 .bfalse (.const true 32 0))) []
+      -- the counter's declared type (first `.var v t` of the condition; none: the special ut32 identifiers)
+      let lvt := loopVarTy v cond
+      let initEff ← forInitH env v lvt
+      let (init, st) := chk st initEff []
       let (cc, st) ← compileExprH env st cond
       if step == 0 then do
-        let (stepCE, st) ← compileExprH env st (.post v utT "++")
+        let (stepCE, st) ← compileExprH env st (.post v lvt "++")
         let stepTmp := match stepCE.il with | .varl n => [n] | _ => []
         let (bs, bb, st) ← compileStmtsH env st body
         let (compound, st) := chk st (mkSeq bs) (bb ++ stepTmp) true
         let (eff, st) := chk st (.seqn [init, .repeat_ (condIL env.cfg cc) compound]) []
         .ok (some eff, [], st)
       else do
-        let (stepEff, _) ← compileAssign env (.var v utT) "+=" { il := numberIL ⟨true, 32, 1⟩ step, ty := ⟨true, 32, 1⟩, kind := .lit step }
+        let (stepEff, _) ← compileAssign env (.var v lvt) "+=" { il := numberIL ⟨true, 32, 1⟩ step, ty := ⟨true, 32, 1⟩, kind := .lit step }
         let (bs, bb, st) ← compileStmtsH env st body
         let (compound, st) := chk st (mkSeq (bs ++ [stepEff])) bb true
         let (eff, st) := chk st (.seqn [init, .repeat_ (condIL env.cfg cc) compound]) []
